@@ -428,22 +428,44 @@ def f13_key_matches(rec, cfg="SnapTrace_C04.cfg"):
 
 
 def f5_key_matches(drv, rec_lines):
-    """Known finding F5 is keyed by call site: kmpDeduplicate, applied to the routed boundary the specification computes for
-    the failing input, returns an adjacency its argument does not contain. Returns the witness or None."""
+    """Known finding F5 is keyed by call site AND history: kmpDeduplicate, applied to the routed boundary the specification computes
+    for the failing input, returns an adjacency its argument does not contain - and returns exactly what the transcription of the
+    pinned code (Dedupe.tla) returns for that ring. A spike removal that invents an adjacency where the pinned code does not is a
+    different defect and is not matched. Returns the witness or None."""
     r = vlib.run_tlc("SnapTrace", "SnapTrace_chains.cfg", data={"snap_trace.ndjson": "\n".join(rec_lines) + "\n"}, workers=2, timeout=900)
     if not r.ok:
         raise Broken("cannot compute the routed boundary of the failing input: %s" % (r.violated or r.error))
-    inp = []
+    rings = []
     for v in r.vecs:
+        if "lv" not in v:
+            continue
         for lv in v["lv"]:
-            inp.append(json.dumps({"rings": lv["rings"]}))
-    if not inp:
+            for ring in lv["rings"]:
+                if len(ring) >= 3:
+                    labels = {}
+                    rings.append([labels.setdefault(tuple(pt), len(labels)) for pt in ring])
+    if not rings:
         return None
-    p = vlib.run([drv, "kmp-check"], input="\n".join(inp) + "\n", timeout=300)
+    p = vlib.run([drv, "kmp-run"], input="\n".join(json.dumps({"ring": x}) for x in rings) + "\n", timeout=300)
     if p.returncode != 0:
-        raise Broken("kmp-check failed: " + p.stderr[-1000:])
+        raise Broken("kmp-run failed: " + p.stderr[-1000:])
+    cand = []
     for ln in p.stdout.splitlines():
         o = json.loads(ln)
-        if o.get("invented"):
-            return o["witness"]
+        if o["out"] != "ok":
+            continue
+        ring, got = o["ring"], o["got"]
+        adj = {frozenset((ring[i], ring[(i + 1) % len(ring)])) for i in range(len(ring))}
+        inv = [(got[i], got[(i + 1) % len(got)]) for i in range(len(got))
+               if got[i] != got[(i + 1) % len(got)] and frozenset((got[i], got[(i + 1) % len(got)])) not in adj] if len(got) >= 2 else []
+        if inv:
+            cand.append((ln, {"argument": ring, "result": got, "invented": inv[0]}))
+    for ln, wit in cand:
+        cfg = "SPECIFICATION Spec\nINVARIANTS AsTranscribed\nCHECK_DEADLOCK FALSE\n"
+        t = vlib.run_tlc("DedupeTrace", "DedupeTraceF5.cfg", data={"dedupe_trace.ndjson": ln + "\n", "DedupeTraceF5.cfg": cfg}, workers=1, timeout=900,
+                         want_vecs=False)
+        if t.ok:
+            return wit          # the pinned code's own behaviour on this ring
+        if not t.violated:
+            raise Broken("cannot evaluate Dedupe.tla on the routed boundary: %s" % t.error)
     return None
